@@ -57,7 +57,20 @@ class Ctx:
         if os.environ.get('VERIF_SKIP_PROOFS'):
             self.notes.append('proof obligations skipped (development run)')
             return True
-        ok, names, assumptions, logtxt = core.check_property_file(self.pid)
+        if self.pid in CONST_PROPS:
+            # the inventory of constants is regenerated from the source, then the obligations are re-checked, in one locked step
+            import subprocess
+            with core._Lock():
+                g = subprocess.run([sys.executable, os.path.join(core.VERIF, 'tools', 'gen_consts.py')], capture_output=True, text=True,
+                                   env=dict(os.environ, VERIF_REPO=core.REPO))
+                if g.returncode != 0:
+                    self.violation('the inventory of constants could not be regenerated from the source',
+                                   {'broken': 'tools/gen_consts.py', 'log': g.stderr[-2000:]}, found_input=False)
+                else:
+                    self.notes.append('constants inventory: ' + g.stdout.strip())
+                ok, names, assumptions, logtxt = core.check_property_file(self.pid)
+        else:
+            ok, names, assumptions, logtxt = core.check_property_file(self.pid)
         self.obligations = list(names)
         blocks = core.parse_assumptions(assumptions)
         self.axioms = {'Print Assumptions blocks': blocks}
@@ -66,6 +79,10 @@ class Ctx:
         else:
             self.discharged = []
             payload = {'broken': 'Properties/%s.v' % self.pid, 'log': logtxt[-3000:]}
+            if self.pid in CONST_PROPS:
+                # which constants of the source are not the model's any more: (unexplained literals, lost constants, lost names)
+                core.coq_make(['Proofs/ConstSites.vo'])
+                payload['constants_disagreement'] = core.eval_term(self.pid + 'k', 'consts_disagreement', 'From RDM Require Import Proofs.ConstSites.\n')[:3000]
             if self.pid == 'C02':
                 # which map iterations of the source are not the classified code any more
                 payload['uncovered_map_iterations'] = core.eval_term('C02u', 'uncovered_sites', 'From RDM Require Import Proofs.MapSites.\n')[:3000]
@@ -84,7 +101,7 @@ class Ctx:
         allowed = set(ALLOWED_AXIOMS)
         for b in blocks:
             for a in b:
-                if a not in allowed and not a.startswith('PrimFloat') and not a.startswith('Uint63'):
+                if a not in allowed and not a.startswith(('PrimFloat', 'PrimInt63', 'Uint63')):   # kernel primitives (machine floats and integers), not axioms
                     self.violation('theorem depends on an axiom outside the trusted base: ' + a,
                                    {'broken': 'Properties/%s.v' % self.pid, 'axiom': a}, found_input=False)
         return ok
@@ -134,6 +151,8 @@ class Ctx:
 
 
 ALLOWED_AXIOMS = []
+# properties whose Properties/<pid>.v carries the obligation over the regenerated inventory of constants (tools/mkprops.py CONST_PROPS)
+CONST_PROPS = ('C03', 'C05', 'C11', 'C12', 'C17', 'C19', 'C20')
 
 TRUSTED_BASE = [
     'Coq 8.16.1 kernel and vm_compute (no native_compute)',
